@@ -629,6 +629,38 @@ def r_byref_return(text):
     return text, count
 
 
+def ctor_init_statements(header):
+    """R21: constructor mem-initialiser list `: a(e1), b(e2)` -> statements `a = e1; b = e2;` (in the written
+    order, which in the extracted constructors equals the declaration order of the members)."""
+    blank = blank_comments_and_strings(header)
+    # find the ')' that closes the parameter list, then ':'
+    op = blank.index("(")
+    cp = match_close(blank, op)
+    k = cp + 1
+    while k < len(blank) and blank[k] != ":":
+        k += 1
+    if k >= len(blank):
+        return "", 0
+    rest = header[k + 1:]
+    rb = blank[k + 1:]
+    stmts = []
+    i = 0
+    n = len(rest)
+    while i < n:
+        m = re.compile(r"\s*,?\s*([A-Za-z_]\w*)\s*([({])").match(rb, i)
+        if not m:
+            break
+        ob = m.end() - 1
+        cb = match_close(rb, ob)
+        name = m.group(1)
+        expr = rest[ob + 1:cb].strip()
+        if expr == "" or expr == "{}":
+            expr = "{0}" if False else "0"
+        stmts.append("%s = %s;" % (name, expr))
+        i = cb + 1
+    return "\n".join(stmts) + "\n", len(stmts)
+
+
 LOOP_RX = re.compile(r"(?<![A-Za-z_0-9])(for|while)\s*\(")
 
 
